@@ -136,6 +136,10 @@ def make_case(rng, tier):
         # data of small / large magnitude (exact power-of-two scaling; pivots of R_0 around 1e-9 are far above the default
         # rank threshold 1e-14): R, U scale with A, L of Cholesky with its square root, Q and L of LU not at all
         c['scale_log2'] = rng.choice([-30, -24, 20])
+    if kind == 'qr' and 'out_seed' not in c and 'scale_log2' not in c and rng.random() < 0.2:
+        # data far below the default rank threshold with the documented keyword: UTPM.qr(A, epsilon=...) for every shape
+        c['scale_log2'] = -52
+        c['qr_eps'] = 1e-40
     return c
 
 
@@ -159,6 +163,8 @@ def check(c):
                 L = UTPM.cholesky(A, out=stale(x.shape[2], x.shape[3]))
             elif 'out_seed' in c and kind in ('eigh', 'eigh_rep'):
                 l, Q = UTPM.eigh(A, out=(stale(x.shape[2]), stale(x.shape[2], x.shape[3])))
+            elif kind == 'qr' and 'qr_eps' in c:
+                Q, R = UTPM.qr(A, epsilon=c['qr_eps'])
             elif kind == 'qr':
                 Q, R = algopy.qr(A)
             elif kind == 'qr_full':
